@@ -548,10 +548,132 @@ func init() {
 	register(&Check{
 		ID: "C03",
 		Expl: "Decides the part of the decision process that is visible in its shape: the predicate of the binary insertion calls the eleven pairwise comparators on (new, existing) in the documented order and maps their results correctly (E7.chain); each stage compares the documented key in the documented direction and honours its route-selection option, and each stage is mirror-symmetric — " +
-			"both decided by enumerating the stage's decision table over every consistent truth assignment of the comparisons it performs (E7.stage, E7.symmetry). The values are only touched through comparisons, so the table is finite and complete.",
+			"both decided by enumerating the stage's decision table over every consistent truth assignment of the comparisons it performs (E7.stage, E7.symmetry); and a path enters a destination's list only through the sorted insertion, which every announcement reaches (E7.sorted-insertion). The values are only touched through comparisons, so the table is finite and complete.",
 		Not: "Transitivity across stages (MED is known to be non-transitive), the value of AS_PATH length for SET/CONFED segments, multipath prefix selection beyond its shape, and independence from arrival order as a whole are not decided.",
 		Run: func(c *Ctx) {
 			c.ruleComparatorChain()
+			c.ruleSortedInsertionOnly()
 		},
 	})
+}
+
+// ruleSortedInsertionOnly: a path enters a destination's list only through insertSort, and every
+// announcement that reaches Calculate is inserted that way.
+func (c *Ctx) ruleSortedInsertionOnly() {
+	r := c.R
+	rule := "E7.sorted-insertion"
+	r.Rule(rule, "within the methods of destination, knownPathList only grows through insertSort (other writes only remove elements of the list itself), and in Calculate every non-withdraw path reaches insertSort(newPath) on all paths", 4)
+	dn := c.P.NamedType("internal/pkg/table", "destination")
+	ins := c.P.Func("(*internal/pkg/table.destination).insertSort")
+	calc := c.P.Func("(*internal/pkg/table.destination).Calculate")
+	f := ir.Field(dn, "knownPathList")
+	if dn == nil || ins == nil || calc == nil || f == nil {
+		r.Undec(rule, "-", "anchor", "-", "destination / insertSort / Calculate not found")
+		return
+	}
+	isKPLLoad := func(v ssa.Value) bool {
+		for i := 0; i < 6; i++ {
+			switch x := v.(type) {
+			case *ssa.Slice:
+				v = x.X
+				continue
+			case *ssa.UnOp:
+				if fa, ok := x.X.(*ssa.FieldAddr); ok && ir.FieldOf(fa) == f {
+					return true
+				}
+			}
+			break
+		}
+		return false
+	}
+	for _, fn := range c.P.FuncsIn("internal/pkg/table") {
+		if fn.Signature.Recv() == nil || ir.NamedOf(fn.Signature.Recv().Type()) != dn || fn.Blocks == nil {
+			continue
+		}
+		fk := ir.FuncKey(fn)
+		for _, b := range fn.Blocks {
+			for _, in := range b.Instrs {
+				st, ok := in.(*ssa.Store)
+				if !ok {
+					continue
+				}
+				// receiver must be the method's own receiver (not a freshly built snapshot)
+				switch addr := st.Addr.(type) {
+				case *ssa.FieldAddr:
+					if ir.FieldOf(addr) != f || !isParamValue(addr.X, fn.Params[0]) {
+						continue
+					}
+					grows := true
+					why := "stores a new list"
+					if call, ok := st.Val.(*ssa.Call); ok {
+						if bi, ok := call.Call.Value.(*ssa.Builtin); ok && bi.Name() == "append" {
+							grows = false
+							for _, a := range call.Call.Args {
+								if !isKPLLoad(a) {
+									grows = true
+									why = "appends a value that does not come from the list itself"
+								}
+							}
+						}
+					}
+					if isKPLLoad(st.Val) {
+						grows = false
+					}
+					cons := "write knownPathList"
+					switch {
+					case !grows:
+						r.Ok(rule, fk, cons, c.P.InstrPos(st), "removal / reslice of the list itself")
+					case fn == ins:
+						r.Ok(rule, fk, cons, c.P.InstrPos(st), "the sorted insertion")
+					default:
+						r.Bad(rule, fk, cons, c.P.InstrPos(st), "a path is put into the list outside insertSort ("+why+"): its position no longer follows the decision process")
+					}
+				case *ssa.IndexAddr:
+					if isKPLLoad(addr.X) {
+						if u, ok := addr.X.(*ssa.UnOp); ok {
+							if fa, ok := u.X.(*ssa.FieldAddr); ok && isParamValue(fa.X, fn.Params[0]) {
+								r.Bad(rule, fk, "store knownPathList[i]", c.P.InstrPos(st), "an element of the sorted list is overwritten in place: the new path keeps the old path's rank")
+							}
+						}
+					}
+				}
+			}
+		}
+	}
+	// Calculate: the announce branch always reaches insertSort(newPath)
+	var newPath *ssa.Parameter
+	for _, p := range calc.Params {
+		if ir.NamedOf(p.Type()) == c.P.NamedType("internal/pkg/table", "Path") {
+			newPath = p
+		}
+	}
+	var entry *ssa.BasicBlock
+	for _, b := range calc.Blocks {
+		iff, ok := b.Instrs[len(b.Instrs)-1].(*ssa.If)
+		if !ok {
+			continue
+		}
+		if u, ok := iff.Cond.(*ssa.UnOp); ok {
+			if fa, ok := u.X.(*ssa.FieldAddr); ok && ir.FieldOf(fa).Name() == "IsWithdraw" && newPath != nil && isParamValue(fa.X, newPath) {
+				entry = b.Succs[1]
+			}
+		}
+	}
+	if entry == nil {
+		r.Undec(rule, ir.FuncKey(calc), "anchor:branch on newPath.IsWithdraw", c.P.Pos(calc.Pos()), "not found")
+		return
+	}
+	ok := mustPassThrough(entry, func(b *ssa.BasicBlock) bool {
+		for _, in := range b.Instrs {
+			if call, isCall := in.(*ssa.Call); isCall && call.Call.StaticCallee() == ins && len(call.Call.Args) == 2 && isParamValue(call.Call.Args[1], newPath) {
+				return true
+			}
+		}
+		return false
+	})
+	if ok {
+		r.Ok(rule, ir.FuncKey(calc), "announce ⇒ insertSort(newPath)", c.P.Pos(entry.Instrs[0].Pos()), "on every path")
+	} else {
+		r.Bad(rule, ir.FuncKey(calc), "announce ⇒ insertSort(newPath)", c.P.Pos(calc.Pos()), "some path through the announce branch does not insert the new path by the sorted insertion (a fast path keeps the old rank)")
+	}
 }
